@@ -328,8 +328,7 @@ Lemma simple_finalize : forall s rows, simple_sub s = true ->
     (match proj_vars (ss_proj s) with Some vs => map (restrict vs) (esort (ss_order s) rows) | None => esort (ss_order s) rows end).
 Proof.
   intros s rows H. unfold simple_sub in H. unfold finalize_subquery, eaggregate.
-  destruct (ss_proj s) eqn:Ep; [|discriminate].
-  destruct (aggs_of (Some l)); [|discriminate]. destruct (ss_group s); [|discriminate].
+  destruct (aggs_of (ss_proj s)); [|discriminate]. destruct (ss_group s); [|discriminate].
   destruct (ss_limit s); [discriminate|]. reflexivity.
 Qed.
 
